@@ -41,13 +41,13 @@ def run_inter(db, case):
 
 def run(ctx):
     thorough = ctx.tier == "thorough"
-    ctx.rule = ("D1: every ordered list of <= %s intervals over positions 1..6 x 7 seqid/strand/type patterns x 4 option sets (MC_Intervals mode inter: Inter_Alg = Inter_Decl, "
+    ctx.rule = ("D1: every ordered list of <= %s intervals over positions 1..6 (thorough: 1..5) x 10 seqid/strand/type/attribute patterns x 6 option sets (MC_Intervals mode inter: Inter_Alg = Inter_Decl, "
                 "N-1 law); one case in %d is replayed through FeatureDB.interfeatures (gap geometry, type, strand, per-key sorted attribute union, joined IDs, inputs and "
                 "database unchanged); D2: random gene models (1-2 genes, 1-2 transcripts, 0-4 exons touching/overlapping/shuffled, either strand) through create_introns and "
                 "create_splice_sites against Introns_Decl / Splice_Decl (Gen_Intervals). Non-trivial: >= 3 features, a touching/overlapping pair, a seqid change or mixed "
-                "strands; distinct by the case.") % ("4" if thorough else "3", 3 if thorough else 7)
+                "strands; distinct by the case.") % ("4" if thorough else "3", 13 if thorough else 7)
     import gffutils
-    mc = ctx.tlc("MC_Intervals", I.MC_CFG % (4 if thorough else 3, 6, "inter", 3 if thorough else 7), expect="inv", label="interfeatures: alg = decl, N-1 law", timeout=2400)
+    mc = ctx.tlc("MC_Intervals", I.MC_CFG % ((4, 5, "inter", 13) if thorough else (3, 6, "inter", 7)), expect="inv", label="interfeatures: alg = decl, N-1 law", timeout=2400)
     if not mc.ok:
         ctx.violation({"tlc": "MC_Intervals"}, "model:" + str(mc.violated), {"log": ctx.keep_log("MC_Intervals_inter", mc.out)})
         return
